@@ -16,6 +16,10 @@
     recency_is_last_use_order evicted_is_least_recently_used wf_check_decides_wf
     reload_current_noshadow_partial cache_holds_most_recently_used
     load_after_eviction_parses loader_cache_is_wellformed_lru
+    racing_write_is_linearizable racing_history_is_plain_history reload_current_racing_partial
+    code_takes_mtime_of_opened_file stat_after_open_serves_stale
+    load_outcome_is_first_on_path reload_current_full_iff_noshadow
+    reload_current_noshadow_racing_partial mtime_reuse_serves_stale
 -/
 import Genshi.Lemmas.Lru
 import Genshi.Lemmas.LruAbs
@@ -23,6 +27,7 @@ import Genshi.Lemmas.LruTime
 import Genshi.Lemmas.LruCheck
 import Genshi.Lemmas.Loader
 import Genshi.Lemmas.LoaderLru
+import Genshi.Lemmas.LoaderRace
 import Genshi.Gen.Loader
 namespace Genshi.Props.C15
 open Genshi.Lru
@@ -225,6 +230,28 @@ theorem load_parses_first_on_path (cfg : Cfg) (fs : FS) (s s' : LState) (r : Req
   obtain ⟨key, entries, isabs, f, h1, h2, h3, h4, h5⟩ := load_parses_first h hparsed hf
   exact ⟨key, entries, isabs, f, h1, h2, h3, h4, by rw [h5], by rw [h5]⟩
 
+/-- The same with the faults of load functions in the specification (`firstOnPathF`: a load
+    function raising IOError is passed over, one raising anything else ends the walk), and as a
+    complete case analysis: a load that is not answered from the cache — the key is not cached
+    (never loaded, evicted) or, with automatic reloading, its file changed — ends exactly as the
+    walk over the search path of that call says: no search path configured; `TemplateNotFound`;
+    the load function's exception; for the file found first its syntax error, the callback's
+    exception, or the template parsed from its current content with a fresh identity. -/
+theorem load_outcome_is_first_on_path (cfg : Cfg) (fs : FS) (s s' : LState) (r : Req) (res : Res) (key : Key)
+    (hk : resolve cfg.path.isEmpty r = some key)
+    (hno : alookup key s.cache.items = none ∨ (cfg.autoReload = true ∧ stillCurrent fs s key = false))
+    (h : load cfg fs s r = some (s', res)) :
+    (searchPath cfg r key = none ∧ res = .err .noSearchPath) ∨
+    ∃ entries isabs, searchPath cfg r key = some (entries, isabs) ∧
+      match firstOnPathF fs r.fault key entries with
+      | .nothing => res = .err .notFound
+      | .raised => res = .err .loadFunc
+      | .file loc f =>
+        (f.bad = true ∧ res = .err .syntaxError) ∨
+        (f.bad = false ∧ cfg.hasCallback = true ∧ r.cbRaise = true ∧ res = .err .callback) ∨
+        (f.bad = false ∧ res = .ok ⟨s.nextObj, loc, f.content, r.cls, r.enc, isabs⟩) :=
+  load_by_firstF hk hno h
+
 /-- A returned template is either the cached object (nothing parsed, no callback) or a
     template parsed in this call (a fresh object, stored under the key). -/
 theorem served_or_parsed (cfg : Cfg) (fs : FS) (s s' : LState) (r : Req) (t : Tmpl)
@@ -294,6 +321,30 @@ theorem reload_current_noshadow_partial (cfg : Cfg) (har : cfg.autoReload = true
       firstOnPath (hrun cfg (World.init cfg.cap) ops).1.fs key entries = some (t.loc, f) ∧
       f.content = t.content :=
   load_current_first (inv_hrun (inv_init cfg.cap) ops) har hf hns h
+
+/-- `NoShadow` is not stronger than necessary: for a successful load with automatic reloading
+    (no load-function fault in that call) the full statement — the returned template has the
+    current content of the file found first on the search path now — holds **exactly** when
+    `NoShadow` does.  The class excluded from `reload_current_noshadow_partial` is the class of
+    finding C15-shadow and nothing else. -/
+theorem reload_current_full_iff_noshadow (cfg : Cfg) (har : cfg.autoReload = true) (ops : List HOp)
+    (r : Req) (hf : r.fault = .none) (ls' : LState) (t : Tmpl)
+    (h : load cfg (hrun cfg (World.init cfg.cap) ops).1.fs (hrun cfg (World.init cfg.cap) ops).1.ls r
+          = some (ls', .ok t)) :
+    (∃ key entries isabs f, resolve cfg.path.isEmpty r = some key ∧
+      searchPath cfg r key = some (entries, isabs) ∧
+      firstOnPath (hrun cfg (World.init cfg.cap) ops).1.fs key entries = some (t.loc, f) ∧
+      f.content = t.content) ↔ NoShadow cfg (hrun cfg (World.init cfg.cap) ops).1 r := by
+  constructor
+  · rintro ⟨key, entries, isabs, f, hk, hsp, hfp, _⟩ key' t0 hk' hl hcur
+    rw [hk] at hk'; cases hk'
+    have hs := load_served hk hl (Or.inr hcur)
+    rw [hs] at h
+    simp only [Option.some.injEq, Prod.mk.injEq, Res.ok.injEq] at h
+    obtain ⟨_, rfl⟩ := h
+    exact ⟨entries, isabs, f, hsp, hfp⟩
+  · intro hns
+    exact load_current_first (inv_hrun (inv_init cfg.cap) ops) har hf hns h
 
 def shadowCfg : Cfg := { path := [.dir 0 false, .dir 1 false], autoReload := true, cap := 2 }
 def shadowOps : List HOp :=
@@ -400,6 +451,106 @@ theorem default_loader_bounded (path : List Entry) (ar : Bool) (ops : List HOp) 
       ≤ Genshi.Gen.Loader.defaultMaxCacheSize :=
   (loader_cache_bounded ⟨path, ar, Genshi.Gen.Loader.defaultMaxCacheSize, true⟩ ops).1
 
+/-! ### a file replaced while a load is running (fault sequences: a write at a point inside `load`) -/
+
+/-- The code takes the modification time of the file it opened (probed on `directory()` on every
+    run: the file is replaced right after `open` returned; the up-to-date check handed out says
+    "changed").  The theorems below are about the model with this behaviour; `gdrv` runs the
+    model with the generated constant. -/
+theorem code_takes_mtime_of_opened_file : Genshi.Gen.Loader.mtimeOfOpenedFile = true := rfl
+
+/-- **One racing load is linearizable.**  After every history (racing loads included), a load
+    during which the file it opens is replaced — after the cache check and before `open`, or right
+    after `open` — leaves file system, clock and loader state, and returns the result, of the plain
+    history `linearise`: the load then the write (after `open`), the write then the load (before
+    `open`), or the load alone when no directory file was opened. -/
+theorem racing_write_is_linearizable (cfg : Cfg) (ops : List HOpR)
+    (hv : ValidR cfg (World.init cfg.cap) ops) (r : Req) (rw : RaceW) :
+    let w := (hrunR true cfg (World.init cfg.cap) ops).1
+    (hrun cfg w (linearise r rw (firedAt cfg w r rw))).1 = (hstepR true cfg w (.loadRace r rw)).1 ∧
+    (hrun cfg w (linearise r rw (firedAt cfg w r rw))).2.filterMap id =
+      [(hstepR true cfg w (.loadRace r rw)).2].filterMap id :=
+  hstepR_linear (inv_hrunR ops (inv_init cfg.cap) hv) r rw
+
+/-- **Histories with racing replacements are plain histories**: same final world, same results
+    of the loads in order.  Every theorem of this file about `hrun` therefore speaks about
+    histories in which files are replaced while they are being loaded. -/
+theorem racing_history_is_plain_history (cfg : Cfg) (ops : List HOpR)
+    (hno : ∀ op ∈ ops, op.isWriteAt = false) :
+    ∃ ops' : List HOp,
+      (hrun cfg (World.init cfg.cap) ops').1 = (hrunR true cfg (World.init cfg.cap) ops).1 ∧
+      (hrun cfg (World.init cfg.cap) ops').2.filterMap id =
+        (hrunR true cfg (World.init cfg.cap) ops).2.filterMap id :=
+  hrunR_plain cfg ops hno _ (inv_init cfg.cap)
+
+/-- **Modification times need not grow.**  `reload_current_partial` for histories in which
+    files are replaced while they are loaded *and* modifications set any modification time —
+    older ones included (`HOpR.writeAt`: restore from a backup, checkout of an older revision,
+    `rsync -t`) — as long as the time set *differs* from every time the loader remembers for that
+    file (`ValidR` / `FreshTime`; `write` and `touch`, stamped by the clock, always do): a load
+    with automatic reloading returns a template with the current content of the file it came
+    from.  The code compares the remembered time with `==`; a comparison by order (`<=`: "stale
+    only if the file is newer") fails this theorem's history class (seeded change C15-4).
+    (Partial for the same reason as `reload_current_partial`: finding C15-shadow.  A different
+    content under a remembered time is the limit of reloading by modification time:
+    `mtime_reuse_serves_stale`.) -/
+theorem reload_current_racing_partial (cfg : Cfg) (har : cfg.autoReload = true) (ops : List HOpR)
+    (hv : ValidR cfg (World.init cfg.cap) ops) (r : Req) (ls' : LState) (t : Tmpl)
+    (h : load cfg (hrunR true cfg (World.init cfg.cap) ops).1.fs
+          (hrunR true cfg (World.init cfg.cap) ops).1.ls r = some (ls', .ok t)) :
+    ∃ f, (hrunR true cfg (World.init cfg.cap) ops).1.fs t.loc = some f ∧ f.content = t.content :=
+  load_current (inv_hrunR ops (inv_init cfg.cap) hv) har h
+
+/-- … and `reload_current_noshadow_partial` for the same histories: under `NoShadow` the
+    returned template has the current content of the file found first on the search path. -/
+theorem reload_current_noshadow_racing_partial (cfg : Cfg) (har : cfg.autoReload = true) (ops : List HOpR)
+    (hv : ValidR cfg (World.init cfg.cap) ops) (r : Req) (hf : r.fault = .none) (ls' : LState) (t : Tmpl)
+    (hns : NoShadow cfg (hrunR true cfg (World.init cfg.cap) ops).1 r)
+    (h : load cfg (hrunR true cfg (World.init cfg.cap) ops).1.fs
+          (hrunR true cfg (World.init cfg.cap) ops).1.ls r = some (ls', .ok t)) :
+    ∃ key entries isabs f, resolve cfg.path.isEmpty r = some key ∧
+      searchPath cfg r key = some (entries, isabs) ∧
+      firstOnPath (hrunR true cfg (World.init cfg.cap) ops).1.fs key entries = some (t.loc, f) ∧
+      f.content = t.content :=
+  load_current_first (inv_hrunR ops (inv_init cfg.cap) hv) har hf hns h
+
+def raceCfg : Cfg := { path := [.dir 0 false], autoReload := true, cap := 2 }
+def reuseOps : List HOpR :=
+  [.plain (.write ⟨0, false, 0⟩ 100 false), .plain (.load { base := 0 }), .writeAt ⟨0, false, 0⟩ 101 false 1]
+
+/-- The limit of reloading by modification time, and why `FreshTime` is needed: a different
+    content stored under the very time the loader remembers (`writeAt … 1` after the file was
+    parsed at time 1) is served stale — by any implementation that only looks at the time. -/
+theorem mtime_reuse_serves_stale :
+    ¬ ValidR raceCfg (World.init 2) reuseOps ∧
+    ∃ ls' t, load raceCfg (hrunR true raceCfg (World.init 2) reuseOps).1.fs
+        (hrunR true raceCfg (World.init 2) reuseOps).1.ls { base := 0 } = some (ls', .ok t) ∧
+      t.content = 100 ∧
+      ((hrunR true raceCfg (World.init 2) reuseOps).1.fs t.loc).map (·.content) = some 101 := by
+  refine ⟨?_, _, _, rfl, rfl, rfl⟩
+  intro h
+  have hf : FreshTime (hrunR true raceCfg (World.init 2)
+      [.plain (.write ⟨0, false, 0⟩ 100 false), .plain (.load { base := 0 })]).1 ⟨0, false, 0⟩ 1 := h.2.2.1
+  exact hf ⟨none, false, 0⟩ ⟨0, ⟨0, false, 0⟩, 100, 0, 0, false⟩ 1 (by decide) rfl rfl
+
+def raceOps : List HOpR :=
+  [.plain (.write ⟨0, false, 0⟩ 100 false), .loadRace { base := 0 } ⟨false, 101, false⟩]
+
+/-- Why the modification time must be the opened file's (the code before `fix: directory() takes
+    the modification time from the file it opened` asked the *path* after `open`): in that model
+    (`fstat = false`) the history "write v100; load while the file is replaced by v101 right after
+    `open`" leaves v100 cached with the time of v101, and the next load serves v100 although the
+    file holds v101 — for good.  With the opened file's time the same history reloads. -/
+theorem stat_after_open_serves_stale :
+    (∃ ls' t, load raceCfg (hrunR false raceCfg (World.init 2) raceOps).1.fs
+        (hrunR false raceCfg (World.init 2) raceOps).1.ls { base := 0 } = some (ls', .ok t) ∧
+      t.content = 100 ∧
+      ((hrunR false raceCfg (World.init 2) raceOps).1.fs t.loc).map (·.content) = some 101) ∧
+    (∃ ls' t, load raceCfg (hrunR true raceCfg (World.init 2) raceOps).1.fs
+        (hrunR true raceCfg (World.init 2) raceOps).1.ls { base := 0 } = some (ls', .ok t) ∧
+      t.content = 101) := by
+  refine ⟨⟨_, _, rfl, rfl, rfl⟩, ⟨_, _, rfl, rfl⟩⟩
+
 end Loader
 
 /-! ### non-vacuity -/
@@ -411,6 +562,45 @@ example : (hrun ⟨[.dir 0 false], true, 2, true⟩ (World.init 2)
      .load { base := 0 }, .write ⟨0, false, 0⟩ 101 true, .load { base := 0 }]).2 =
     [none, some (.ok ⟨0, ⟨0, false, 0⟩, 100, 0, 0, false⟩), some (.ok ⟨0, ⟨0, false, 0⟩, 100, 0, 0, false⟩),
      none, some (.ok ⟨1, ⟨0, false, 0⟩, 100, 0, 0, false⟩), none, some (.err .syntaxError)] := by
+  decide
+end
+
+section
+open Genshi.Loader
+-- the specification with faults: a load function raising IOError is passed over, another
+-- exception ends the walk, otherwise the first file decides
+example : firstOnPathF (fsSet (fsSet (fun _ => none) ⟨1, false, 0⟩ (some ⟨7, false, 1⟩)) ⟨2, false, 0⟩ (some ⟨8, false, 2⟩))
+    .io ⟨none, false, 0⟩ [.dir 0 false, .fn 1 true, .dir 2 false] = .file ⟨2, false, 0⟩ ⟨8, false, 2⟩ := by decide
+example : firstOnPathF (fsSet (fun _ => none) ⟨1, false, 0⟩ (some ⟨7, false, 1⟩))
+    .other ⟨none, false, 0⟩ [.dir 0 false, .fn 1 true, .dir 2 false] = .raised := by decide
+example : firstOnPathF (fsSet (fun _ => none) ⟨1, false, 0⟩ (some ⟨7, false, 1⟩))
+    .none ⟨none, false, 0⟩ [.dir 0 false, .fn 1 true, .dir 2 false] = .file ⟨1, false, 0⟩ ⟨7, false, 1⟩ := by decide
+-- a modification with an *older* time (3 → 1) is noticed, a valid history
+example : (hrunR true ⟨[.dir 0 false], true, 2, true⟩ (World.init 2)
+    [.writeAt ⟨0, false, 0⟩ 100 false 3, .plain (.load { base := 0 }), .writeAt ⟨0, false, 0⟩ 101 false 1,
+     .plain (.load { base := 0 })]).2.map
+      (fun o => o.map fun r => match r with | .ok t => t.content | .err _ => 0) =
+    [none, some 100, none, some 101] := by
+  decide
+example : ValidR ⟨[.dir 0 false], true, 2, true⟩ (World.init 2)
+    [.writeAt ⟨0, false, 0⟩ 100 false 3, .plain (.load { base := 0 }), .writeAt ⟨0, false, 0⟩ 101 false 1] := by
+  refine ⟨?_, trivial, ?_, trivial⟩
+  · intro k t m' hm; simp [World.init, LState.init, Genshi.Lru.aempty] at hm
+  · intro k t m' hm hu
+    have hk : k = ⟨none, false, 0⟩ := by
+      have : (k, t) ∈ [((⟨none, false, 0⟩ : Key), (⟨0, ⟨0, false, 0⟩, 100, 0, 0, false⟩ : Tmpl))] := hm
+      simp at this; exact this.1
+    subst hk
+    have : (some (Utd.mtime ⟨0, false, 0⟩ 3) : Option Utd) = some (.mtime ⟨0, false, 0⟩ m') := hu
+    simp at this; omega
+-- racing replacements that land: after `open` (the old content is returned, the next load
+-- reloads), before `open` (the new content is returned)
+example : (hrunR true ⟨[.dir 0 false], true, 2, true⟩ (World.init 2)
+    [.plain (.write ⟨0, false, 0⟩ 100 false), .loadRace { base := 0 } ⟨false, 101, false⟩,
+     .plain (.load { base := 0 }), .loadRace { base := 0 } ⟨true, 102, false⟩,
+     .plain (.touch ⟨0, false, 0⟩), .loadRace { base := 0 } ⟨true, 103, false⟩]).2.map
+      (fun o => o.map fun r => match r with | .ok t => t.content | .err _ => 0) =
+    [none, some 100, some 101, some 101, none, some 103] := by
   decide
 end
 
